@@ -227,6 +227,7 @@ type Frame struct {
 	rets     []retInfo
 	safetyTags []string
 	curBlock *ssa.BasicBlock
+	curLoop  *LoopInfo
 }
 
 type retInfo struct {
@@ -570,11 +571,13 @@ func (fr *Frame) run(st0 *State, reach0 string) {
 }
 
 func (fr *Frame) invEnv(st *State) *Env {
-	return &Env{fr: fr, cur: st, old: fr.entry, useCells: true, vars: map[string]Val{}}
+	return &Env{fr: fr, cur: st, old: fr.entry, useCells: true, vars: map[string]Val{}, loop: fr.curLoop}
 }
 
 func (fr *Frame) enterLoop(li *LoopInfo, st *State, reach string) (*State, string) {
 	c := fr.c
+	fr.curLoop = li
+	defer func() { fr.curLoop = nil }()
 	reach = c.define("r_loop", "Bool", reach)
 	lname := fmt.Sprintf("loop%d", li.ordinal)
 	if li.lc != nil {
@@ -679,6 +682,8 @@ func (fr *Frame) tagsFor(cl *Clause) []string {
 
 func (fr *Frame) backEdge(li *LoopInfo, st *State, cond string) {
 	c := fr.c
+	fr.curLoop = li
+	defer func() { fr.curLoop = nil }()
 	lname := fmt.Sprintf("loop%d", li.ordinal)
 	if li.lc == nil {
 		c.oblige(fr.oname(lname+"/decreases", "missing"), "decreases", fr.safetyTags, cond, "false", fr.c.pr.lineOf(li.header.Instrs[0].Pos()), "loop without contract")
@@ -715,6 +720,15 @@ func (fr *Frame) backEdge(li *LoopInfo, st *State, cond string) {
 		}
 		line = li.lc.DecClause.Line
 		text = li.lc.DecClause.Text
+	}
+	// report the source line of the back edge (continue / end of body)
+	if fr.curBlock != nil {
+		for i := len(fr.curBlock.Instrs) - 1; i >= 0; i-- {
+			if p := fr.curBlock.Instrs[i].Pos(); p.IsValid() {
+				line = c.pr.lineOf(p)
+				break
+			}
+		}
 	}
 	c.oblige(fr.oname(lname+"/decreases", "variant"), "decreases", tags, cond, sOr(alts...), line, text)
 }
